@@ -1223,7 +1223,10 @@ fn run_in(w: &Arc<World>, sc: &Scenario, plan: Plan) -> Result<(Outcome, RunInfo
   for (k, _) in w.sh.loads.log.lock().unwrap().iter() {
     *loads.entry(*k).or_default() += 1;
   }
-  if sc.cfg.ttl_ms.is_none() {
+  let has_item_ttl = |op: &POp| matches!(op, POp::InsertTtl { .. });
+  let timed = sc.cfg.ttl_ms.is_some() || has_item_ttl(&sc.a) || has_item_ttl(&sc.b) || sc.suffix.iter().any(has_item_ttl) || sc.setup.iter().any(|s| matches!(s, SOp::Op(o) if has_item_ttl(o)));
+  if !timed {
+    // (no entry can be expired-but-uncollected: what peek shows is what is resident)
     let costs = w.costs.lock().unwrap();
     let mut sum = 0u64;
     let mut known = true;
@@ -1306,9 +1309,13 @@ pub fn execute(sc: &Scenario) -> Result<CaseReport, Failure> {
   rep.class(format!("pair:shards:{}", sc.cfg.shards));
   // ---- sequential references (they also measure the event traces the pause plans index) ----
   let (ref_ab, info_ab) = run_or!(Plan { b_first: false, ..Plan::default() });
-  let (ref_ba, info_ba) = run_or!(Plan { b_first: true, ..Plan::default() });
+  // (B;A is only executed when it is needed: to index B's pause plan, or when A;B does not match)
+  let mut ref_ba: Option<(Outcome, RunInfo)> = None;
+  if sc.pb.is_some() {
+    ref_ba = Some(run_or!(Plan { b_first: true, ..Plan::default() }));
+  }
   let len_a = info_ab.len_first;
-  let len_b = info_ba.len_first;
+  let len_b = ref_ba.as_ref().map_or(0, |r| r.1.len_first);
   let nth_a = match sc.pa {
     Some(i) if len_a > 0 => 1 + vcore::idx(i, len_a as usize) as u32,
     _ => 0,
@@ -1317,7 +1324,7 @@ pub fn execute(sc: &Scenario) -> Result<CaseReport, Failure> {
     Some(i) if len_b > 0 => 1 + vcore::idx(i, len_b as usize) as u32,
     _ => 0,
   };
-  if info_ab.busy || info_ba.busy {
+  if info_ab.busy || ref_ba.as_ref().map_or(false, |r| r.1.busy) {
     rep.class("pair:busy_in_reference");
     return Ok(rep);
   }
@@ -1379,9 +1386,21 @@ pub fn execute(sc: &Scenario) -> Result<CaseReport, Failure> {
 
   // ---- references ----
   let mut refs: Vec<(String, Outcome)> = Vec::new();
+  let mut ba_loader_events = 0;
   if !stepping {
+    let ab_matches = diff(&conc, &ref_ab).is_empty();
     refs.push(("A;B".into(), ref_ab));
-    refs.push(("B;A".into(), ref_ba));
+    if ab_matches {
+      return Ok(rep);
+    }
+    let (o, i) = match ref_ba {
+      Some(x) => x,
+      None => run_or!(Plan { b_first: true, ..Plan::default() }),
+    };
+    ba_loader_events = i.first_loader_events;
+    if !i.busy {
+      refs.push(("B;A".into(), o));
+    }
   } else {
     // clock-step scenarios: A and B commute (different keys, no operation spanning keys); each took effect
     // at the time before (t0) or after (t1) the step.  B finished before the step => B at t0.  B not
@@ -1424,7 +1443,7 @@ pub fn execute(sc: &Scenario) -> Result<CaseReport, Failure> {
         refs.push(("A(miss);B;A(store)".into(), o));
       }
     }
-    if is_fetch_with(&sc.b) && info_ba.first_loader_events > 0 {
+    if is_fetch_with(&sc.b) && ba_loader_events > 0 {
       let (o, i) = run_or!(Plan { b_first: true, first_loader: true, ..Plan::default() });
       if !i.busy {
         refs.push(("B(miss);A;B(store)".into(), o));
